@@ -1,14 +1,16 @@
 /-
 S-bind: Lua's lexical scoping (reference manual §3.5 "Visibility Rules") as an environment-passing
 binder over the shared AST.  For every identifier occurrence (NameExp) it says which declaration
-binds it (the Loc of the declaring identifier) or that it is a global.  ≈100 lines; written to be
-read in minutes:
+binds it (the Loc of the declaring identifier) or that it is a global.  Written to be read in minutes:
   * the scope of a local variable begins at the first statement AFTER its declaration and lasts
     until the last non-void statement of the innermost block that includes the declaration;
   * `local function f` : f is in scope inside its own body; `local f = function` : it is not;
   * a numeric / generic `for` declares its variables for the body only (not for the bounds / explist);
   * the condition of `repeat … until` can see the locals of the loop block;
   * function parameters are locals of the body; a method (`function a:m()`) has the implicit `self`.
+The flag `tr` selects LuaHelper's own traversal-time variant (`bindTraversal`), which differs in ONE
+place: in `local a, b = e1, e2` the name `a` is already inserted while `e2` is analysed.
+All functions are structurally recursive (no `partial`), so theorems can be proved about them.
 Core Lean only.
 -/
 import LuaHelper.Model.Ast
@@ -39,55 +41,86 @@ def declOcc (n : Bytes) (l : Loc) (region : Loc := ⟨0, 0, 0, 0⟩) : Occ :=
 
 def blockLoc : Block → Loc | .mk _ _ l => l
 
+def pushParams (env : Env) : List (Bytes × Loc) → Env
+  | [] => env
+  | (n, l) :: r => pushParams ((n, l) :: env) r
+
+def pushNames (env : Env) : List (Bytes × Loc × Nat) → Env
+  | [] => env
+  | (n, l, _) :: r => pushNames ((n, l) :: env) r
+
 mutual
-partial def bExp (env : Env) : Exp → List Occ
+def bExp (tr : Bool) (env : Env) : Exp → List Occ
   | .name n l => [use env n l]
-  | .unop _ e _ => bExp env e
-  | .binop _ a b _ => bExp env a ++ bExp env b
-  | .table ks vs _ => (ks.zip vs).flatMap fun (k, v) => (match k with | .noKey => [] | k => bExp env k) ++ bExp env v
-  | .func f => bFunc env f
-  | .parens e _ => bExp env e
-  | .index p k _ => bExp env p ++ bExp env k
-  | .call p _ args _ => bExp env p ++ args.flatMap (bExp env)
+  | .unop _ e _ => bExp tr env e
+  | .binop _ a b _ => bExp tr env a ++ bExp tr env b
+  | .table ks vs _ => bExps tr env ks ++ bExps tr env vs
+  | .func f => bFunc tr env f
+  | .parens e _ => bExp tr env e
+  | .index p k _ => bExp tr env p ++ bExp tr env k
+  | .call p _ args _ => bExp tr env p ++ bExps tr env args
   | _ => []
-partial def bFunc (env : Env) : FuncBody → List Occ
+def bExps (tr : Bool) (env : Env) : List Exp → List Occ
+  | [] => []
+  | e :: r => bExp tr env e ++ bExps tr env r
+def bFunc (tr : Bool) (env : Env) : FuncBody → List Occ
   | .mk _ _ ps _ _ body _ =>
-    let env' := ps.foldl (fun e (n, l) => (n, l) :: e) env
-    ps.map (fun (n, l) => declOcc n l) ++ (bBlock env' body).1
+    ps.map (fun (n, l) => declOcc n l) ++ (bBlock tr (pushParams env ps) body).1
 /-- occurrences of a block and the environment at its end (needed by repeat-until) -/
-partial def bBlock (env : Env) : Block → List Occ × Env
+def bBlock (tr : Bool) (env : Env) : Block → List Occ × Env
   | .mk stats ret _ =>
-    let (occs, env') := stats.foldl (fun (acc, e) st => let (o, e') := bStat e st; (acc ++ o, e')) ([], env)
+    let (occs, env') := bStats tr env stats
     match ret with
-    | some es => (occs ++ es.flatMap (bExp env'), env')
+    | some es => (occs ++ bExps tr env' es, env')
     | none => (occs, env')
-partial def bStat (env : Env) : Stat → List Occ × Env
-  | .do_ b _ => ((bBlock env b).1, env)
-  | .while_ c b _ => (bExp env c ++ (bBlock env b).1, env)
-  | .repeat_ b c _ => let (o, e') := bBlock env b; (o ++ bExp e' c, env)
-  | .if_ cs bs _ => ((cs.zip bs).flatMap (fun (c, b) => bExp env c ++ (bBlock env b).1), env)
+def bStats (tr : Bool) (env : Env) : List Stat → List Occ × Env
+  | [] => ([], env)
+  | st :: r =>
+    let (o, e') := bStat tr env st
+    let (o2, e'') := bStats tr e' r
+    (o ++ o2, e'')
+/-- the blocks of an `if` (all in the environment of the `if` statement) -/
+def bBlocks (tr : Bool) (env : Env) : List Block → List Occ
+  | [] => []
+  | b :: bs => (bBlock tr env b).1 ++ bBlocks tr env bs
+/-- assignment targets: a bare name is a write occurrence, anything else is traversed as an expression -/
+def bTargets (tr : Bool) (env : Env) : List Exp → List Occ
+  | [] => []
+  | .name n l :: r => use env n l true :: bTargets tr env r
+  | v :: r => bExp tr env v ++ bTargets tr env r
+/-- LuaHelper's traversal of `local n1, n2, … = e1, e2, …`: name i is inserted right after e_i -/
+def bLocalTr (tr : Bool) (sl : Loc) (env : Env) : List (Bytes × Loc × Nat) → List Exp → List Occ × Env
+  | ns, [] => (ns.map (fun (n, l, _) => declOcc n l sl), pushNames env ns)
+  | [], e :: es =>
+    let (o, env') := bLocalTr tr sl env [] es
+    (bExp tr env e ++ o, env')
+  | (n, l, k) :: ns, e :: es =>
+    let (o, env') := bLocalTr tr sl ((n, l) :: env) ns es
+    (bExp tr env e ++ [declOcc n l sl] ++ o, env')
+def bStat (tr : Bool) (env : Env) : Stat → List Occ × Env
+  | .do_ b _ => ((bBlock tr env b).1, env)
+  | .while_ c b _ => (bExp tr env c ++ (bBlock tr env b).1, env)
+  | .repeat_ b c _ => ((bBlock tr env b).1 ++ bExp tr (bBlock tr env b).2 c, env)
+  | .if_ cs bs _ => (bExps tr env cs ++ bBlocks tr env bs, env)
   | .fornum v vl i lim st b _ =>
-    (bExp env i ++ bExp env lim ++ bExp env st ++ [declOcc v vl ⟨vl.sl, vl.sc, (blockLoc b).sl, (blockLoc b).sc⟩] ++
-      (bBlock ((v, vl) :: env) b).1, env)
+    (bExp tr env i ++ bExp tr env lim ++ bExp tr env st ++
+      [declOcc v vl ⟨vl.sl, vl.sc, (blockLoc b).sl, (blockLoc b).sc⟩] ++ (bBlock tr ((v, vl) :: env) b).1, env)
   | .forin ns es b _ =>
-    let env' := ns.foldl (fun e (n, l) => (n, l) :: e) env
-    (es.flatMap (bExp env) ++ ns.map (fun (n, l) => declOcc n l ⟨l.sl, l.sc, (blockLoc b).sl, (blockLoc b).sc⟩) ++
-      (bBlock env' b).1, env)
-  | .assign vars exps _ =>
-    (exps.flatMap (bExp env) ++ vars.flatMap (fun v => match v with
-      | .name n l => [use env n l true]
-      | v => bExp env v), env)
+    (bExps tr env es ++ ns.map (fun (n, l) => declOcc n l ⟨l.sl, l.sc, (blockLoc b).sl, (blockLoc b).sc⟩) ++
+      (bBlock tr (pushParams env ns) b).1, env)
+  | .assign vars exps _ => (bExps tr env exps ++ bTargets tr env vars, env)
   | .local_ names exps sl =>
-    let env' := names.foldl (fun e (n, l, _) => (n, l) :: e) env
-    (exps.flatMap (bExp env) ++ names.map (fun (n, l, _) => declOcc n l sl), env')
-  | .localfn n nl f _ =>
-    let env' := (n, nl) :: env
-    ([declOcc n nl] ++ bFunc env' f, env')
-  | .callstat e => (bExp env e, env)
+    if tr then bLocalTr tr sl env names exps
+    else (bExps tr env exps ++ names.map (fun (n, l, _) => declOcc n l sl), pushNames env names)
+  | .localfn n nl f _ => ([declOcc n nl] ++ bFunc tr ((n, nl) :: env) f, (n, nl) :: env)
+  | .callstat e => (bExp tr env e, env)
   | _ => ([], env)
 end
 
-/-- every identifier occurrence of a chunk with its binding -/
-def bindChunk (b : Block) : List Occ := (bBlock [] b).1
+/-- every identifier occurrence of a chunk with its binding under Lua's rules -/
+def bindChunk (b : Block) : List Occ := (bBlock false [] b).1
+
+/-- the binding LuaHelper's own traversal computes (passes 1-4) -/
+def bindTraversal (b : Block) : List Occ := (bBlock true [] b).1
 
 end LuaHelper.Bind
